@@ -5,7 +5,9 @@ The i-th request asks for /r<i>; the server answers every request it receives wi
 bytes all carry the marker of the request being answered (request i -> byte 0x41+i); stray data carries 0x61+i.
 reply = {"kind": resp|junk|eof, "status": 200|204|304, "framing": len|chunked|eof, "n": declared body length,
          "first": body bytes in the segment that holds the headers, "sent": body bytes sent in all (< n: early EOF),
-         "keep": keep-alive, "stray": none|same_resp|sep_resp|same_junk|sep_junk, "eof_after": bool}
+         "keep": keep-alive, "stray": none|same_resp|sep_resp|same_junk|sep_junk, "eof_after": bool,
+         "late": bool (Content-Length replies only: the rest of the body after `first` is held back until the next request arrives on
+         that connection, and it reads like a complete response of its own - judged by the oracle only)}
 caller = read_all | read_k k | release | keep | drain | close | stream amt
 Observation per request: outcome, status, the runs of marker bytes delivered, whether reading raised, the socket that carried
 the final attempt, the number of connections made so far."""
@@ -17,7 +19,7 @@ import hashlib
 from sexp import S, Z, B, Opt
 
 ID = "C03"
-GEN = ["Gen_Exc", "Gen_Urlopen"]
+GEN = ["Gen_Exc", "Gen_Urlopen", "Gen_Read"]
 RULE = ("histories of 2-4 GET/HEAD requests on one pool (maxsize 1-2) against a scripted keep-alive server: Content-Length / chunked / "
         "close-delimited / body-less replies, body split over segments, early EOF, keep-alive or close, a stray second response or junk after "
         "a reply (same or separate segment), EOF after a keep-alive reply; caller reads all / reads k then releases / releases unread / keeps the "
@@ -28,7 +30,7 @@ TRUSTED_BASE = [
     "reply heads always arrive whole in one segment; servers answer each request only after receiving it; in-memory sockets of tools/netsim",
     "garbage collection of dropped responses is immediate (gc.collect after every disposal)",
 ]
-ASSUMPTIONS = ["stray bytes are pending at checkout or never arrive (the property excludes bytes that arrive after checkout)",
+ASSUMPTIONS = ["stray bytes are pending at checkout or never arrive (the property excludes bytes that arrive after checkout); the rest of a body may arrive late",
                "requests are issued one after the other", "retries is the library default (3)"]
 EXHAUSTIVE = {"quick": False, "thorough": False}
 CASE_TIMEOUT = 30
@@ -45,6 +47,10 @@ def norm_reply(r, head):
     r = dict(r)
     if r["kind"] != "resp":
         return r
+    if r.get("late"):
+        r.update({"status": 200, "framing": "len", "keep": True, "stray": "none", "eof_after": False})
+        r["first"] = min(r["first"], 3)
+        r["n"] = r["sent"] = r["first"] + LATE_TAIL
     bodyless = head or r["status"] in (204, 304)
     if bodyless:
         r["first"] = r["sent"] = 0
@@ -61,6 +67,18 @@ def norm_reply(r, head):
         r["stray"] = "none"
     r["bodyless"] = bodyless
     return r
+
+
+LATE_TAIL = 56          # len of the held-back rest of a late reply (see serve)
+
+
+def is_late(r):
+    return bool(r.get("late")) and r["kind"] == "resp"
+
+
+def in_model_domain(case):
+    """the model delivers a reply's segments at once; a body whose rest arrives after the next checkout is judged by the oracle only"""
+    return not any(is_late(r) for r in case["replies"])
 
 
 def enc_reply(r):
@@ -141,6 +159,13 @@ def impl(case):
         if not r["keep"]:
             hdrs.append(("Connection", "close"))
         body = mark * r["sent"]
+        late = bool(r.get("late")) and not r["bodyless"]
+        if late:
+            # the rest of this body reads like a response of its own (to a client that lost track of the framing)
+            tail = head_of(200, [("X-Req", str(req_index)), ("Content-Length", "3")]) + mark * 3
+            tail = tail + mark * (LATE_TAIL - len(tail))
+            assert len(tail) == LATE_TAIL
+            body = mark * r["first"] + tail
         wire = (lambda b, last: chunked(b) + (b"0\r\n\r\n" if last else b"")) if fr == "chunked" and not r["bodyless"] else (lambda b, last: b)
         complete = r["complete"]
         seg1 = head_of(r["status"], hdrs) + wire(body[:r["first"]], complete and r["first"] == r["sent"])
@@ -157,6 +182,10 @@ def impl(case):
                 segs.append(stray_resp)
             elif st == "sep_junk":
                 segs.append(stray_junk)
+        if late:
+            peer.send(segs[0])
+            peer.held = b"".join(segs[1:])
+            return
         for s in segs:
             peer.send(s)
         if (not r["keep"]) or (not complete) or r["eof_after"] or fr == "eof":
@@ -181,6 +210,9 @@ def impl(case):
                     method, path, _ = line.split(" ")
                     idx = int(path[2:])
                     sock.last_req = idx
+                    if getattr(peer, "held", None):
+                        peer.send(peer.held)          # the rest of a late body arrives now
+                        peer.held = None
                     serve(peer, idx, method == "HEAD")
             return Peer(on_data)
 
@@ -285,8 +317,9 @@ def oracle(case, obs):
         if outcome == 3:
             return None
         mark = 0x41 + i
+        late_here = any(r.get("late") for r in served.get(i, []))
         for x, n in delivered:
-            if x != mark:
+            if x != mark and not late_here:
                 return "request #%d was delivered %d byte(s) 0x%02x that the server did not send for it" % (i, n, x)
         total = sum(n for _, n in delivered)
         sent = [r["sent"] for r in served.get(i, []) if r["kind"] == "resp"]
@@ -413,6 +446,16 @@ def cases(rng, tier):
                             "replies": [dict(f) for f in fails] + [dict(PLAIN)] * 12})
     if tier == "quick":
         out = [c for i, c in enumerate(out) if i % 3 == 0 or c["replies"][0].get("stray", "none") != "none"]
+    # a body whose rest arrives late: the caller stops early (one read1 as large as it likes, read(k) within what has arrived, release, keep,
+    # close), the next requests read everything
+    for first in (0, 1, 3):
+        for c in (["read1", 1], ["read1", 3], ["read1", 64], ["read1", 1000], ["read_k", 1], ["release"], ["keep"], ["close"]):
+            if c[0] == "read_k" and first == 0:
+                continue
+            for maxsize in (1, 2):
+                out.append({"maxsize": maxsize, "reqs": [{"head": False, "preload": False, "caller": list(c)}, {"head": False, "preload": False, "caller": ["read_all"]},
+                                                         {"head": False, "preload": True, "caller": ["read_all"]}],
+                            "replies": [dict(PLAIN, first=first, late=True)] + [dict(PLAIN)] * 12})
     n = 2500 if tier == "quick" else 40000
     for _ in range(n):
         out.append(one_case(rng))
